@@ -245,8 +245,14 @@ func refMatchReq(spec string, r Req) bool {
 			return false
 		}
 		if filter != "" {
-			// the handler sees the decompiled form of the filter; the alphabet's filters are in canonical form already
-			if !strings.EqualFold(filter, r.Filter) {
+			// the handler sees what go-ldap decompiles from the compiled filter
+			seen := r.Filter
+			if fp, err := ldap.CompileFilter(r.Filter); err == nil {
+				if d, err := ldap.DecompileFilter(fp); err == nil {
+					seen = d
+				}
+			}
+			if !strings.EqualFold(filter, seen) {
 				return false
 			}
 		}
